@@ -48,6 +48,9 @@ func newChunkStream(chunks [][]byte, finalEOF bool) *chunkStream {
 
 // measuredPanic is `measured` keeping the panic value
 func measuredPanic(f func()) (pv interface{}, alloc uint64, returned bool) {
+	if tooManyHangs() {
+		return nil, 0, false
+	}
 	type outc struct {
 		p interface{}
 		a uint64
@@ -70,6 +73,7 @@ func measuredPanic(f func()) (pv interface{}, alloc uint64, returned bool) {
 	case o := <-done:
 		return o.p, o.a, true
 	case <-t.C:
+		hangs++
 		return nil, 0, false
 	}
 }
@@ -115,6 +119,9 @@ func totalLen(chunks [][]byte) int {
 
 // caseStream drives one handler loop for at most cap steps
 func caseStream(r *vk.Run, kind int, chunks [][]byte, finalEOF bool, bs, cap int, bucket string) {
+	if tooManyHangs() {
+		return
+	}
 	cs := newChunkStream(chunks, finalEOF)
 	var items [][][]byte
 	pv, alloc, ret := measuredPanic(func() {
@@ -224,6 +231,9 @@ func caseStream(r *vk.Run, kind int, chunks [][]byte, finalEOF bool, bs, cap int
 }
 
 func caseReadFully(r *vk.Run, chunks [][]byte, finalEOF bool, bucket string) {
+	if tooManyHangs() {
+		return
+	}
 	cs := newChunkStream(chunks, finalEOF)
 	var msg []byte
 	var err error
